@@ -17,7 +17,7 @@ RULE = ('Each run builds 1-2 argument lists (direct TexArgs, or node.args of a p
         'compared with a Python list of serialised groups. Non-trivial: at least one mutating operation succeeded; '
         'distinct by digest of (owners, initial groups, resolved operations).')
 STUBS = []
-PROBES = ['same-object-twice', 'duplicate-present', 'insert-negative', 'insert-beyond-len', 'pop-default', 'rejected-malformed',
+PROBES = ['owner-reassigned', 'same-object-twice', 'duplicate-present', 'insert-negative', 'insert-beyond-len', 'pop-default', 'rejected-malformed',
           'rejected-absent', 'rejected-index', 'slice-alias-mutated', 'owner-cmd', 'owner-env', 'string-coerced']
 ASSUMPTIONS = ['whitespace-only strings are not part of the operation set (the property does not define them)',
                'extend() is only given well-formed elements']
@@ -25,7 +25,7 @@ ASSUMPTIONS = ['whitespace-only strings are not part of the operation set (the p
 POOL = ['{a}', '[a]', '{a}', '{}', '[b c]', '{\\x}', '[]', '{b}', '{{a}b}', '[[1]]']
 BAD = ['{x]', 'x', '[y}', '{', ']', '(z)', 'a{b}']
 OPS = ('append', 'extend', 'insert', 'remove', 'pop', 'pop0', 'reverse', 'clear', 'getitem', 'slice', 'len',
-       'contains', 'newslice', 'bad_append', 'bad_insert', 'bad_remove')
+       'contains', 'newslice', 'bad_append', 'bad_insert', 'bad_remove', 'reassign')
 MUTATING = ('append', 'extend', 'insert', 'remove', 'pop', 'pop0', 'reverse', 'clear')
 
 
@@ -232,6 +232,17 @@ def run(case):
                         model.append(list(exp_ret))
                         owners.append((None, '', ''))
                         aliases.add(len(real) - 1)
+                elif op == 'reassign':
+                    node = owners[k][0]
+                    if node is None:
+                        desc = ('len', k)
+                        exp_ret, real_ret = n, len(R)
+                    else:
+                        # `a = node.args; ...; node.args = a`: the owner is given its own list back
+                        desc = ('owner.args=args', k)
+                        count('probe.owner-reassigned')
+                        node.args = R
+                        real[k] = node.args
                 elif op == 'len':
                     desc = ('len', k)
                     exp_ret, real_ret = n, len(R)
